@@ -379,14 +379,14 @@ class Interp:
             opn = {"Lt": "Gt", "LtE": "GtE", "Gt": "Lt", "GtE": "LtE"}.get(opn, opn)
         # q opn 0
         self.key_poly[q.key()] = q
-        if opn in ("Eq", "NotEq"):
-            r = self.decide("cmp:Eq:" + q.key(), [False, True])
-            return r if opn == "Eq" else not r
-        if opn in ("Lt", "GtE"):
-            r = self.decide("cmp:Lt:" + q.key(), [False, True])
-            return r if opn == "Lt" else not r
-        r = self.decide("cmp:Gt:" + q.key(), [False, True])
-        return r if opn == "Gt" else not r
+        kind = "Eq" if opn in ("Eq", "NotEq") else ("Lt" if opn in ("Lt", "GtE") else "Gt")
+        key = f"cmp:{kind}:" + q.key()
+        if key not in self.facts and any(self.facts.get(f"cmp:{other}:" + q.key()) is True for other in ("Eq", "Lt", "Gt") if other != kind):
+            # q < 0, q == 0 and q > 0 exclude one another: a path that established one of them cannot take another
+            # (sound for NaN as well); recorded as a fact so that rules reading the facts see it
+            self.facts[key] = False
+        r = self.decide(key, [False, True])
+        return r if opn == kind else not r
 
     # ---------------------------------------------------------------- truth
     def truth(self, v) -> bool:
